@@ -8,7 +8,7 @@ package main
 //	  npipes, per pipeline: pipeline, ncreated, (id, ntok, (conn, seq)...)..., nsessions, (nev, (kind, id)...)...,
 //	  stopped, [ndisk, (pipeline, id)..., drops]
 //
-// chunk ids are 4*(rank+1) of the id string among all chunk ids of the scenario (string order = time order);
+// chunk ids are 16*(rank+1) of the id string among all chunk ids of the scenario (string order = time order);
 // a chunk belongs to the generation in which its id (wall-clock nanoseconds) was generated; sessions are the
 // upstream connection attempts that received at least one chunk, attributed to the pipeline of that chunk's tag
 // and to the generation in which they were accepted; kind 1 = chunk received completely, 2 = ACK written.
@@ -74,7 +74,7 @@ func c01EncodeTrace(run *c01Run, output string) []int64 {
 	sort.Strings(ids)
 	for i, id := range ids {
 		ci := info[id]
-		ci.Num = 4 * (i + 1)
+		ci.Num = 16 * (i + 1)
 		nano := c01ChunkNano(id)
 		ci.Gen = len(run.Gens) - 1
 		for g, gen := range run.Gens {
@@ -141,7 +141,7 @@ func c01EncodeTrace(run *c01Run, output string) []int64 {
 				created++
 			}
 		}
-		z = append(z, int64(4*created+1))
+		z = append(z, int64(16*created+1))
 		// connections and ingested records of this generation, in send order
 		var conns []int
 		seenConn := map[int]bool{}
